@@ -115,17 +115,18 @@ Record prog := { p_pre : list detail; p_setup : list step; p_body : list step; p
 Record trun := { r_raised : list (list bool); r_after_ran : bool; r_outcome : outcome;
                  r_details : option (list detail) }.
 
-(* RunTest._run_core (runtest.py:130-176).  setUp raised: the cleanups, then return - force_failure is not
-   consulted.  Otherwise the test method, then tearDown and the cleanups (LIFO) whatever happened, then, if
-   force_failure is set, _raise_force_fail_error through _run_user: its AssertionError is caught last. *)
+(* RunTest._run_core (runtest.py:130-180).  setUp raised: the cleanups only.  Otherwise the test method, then
+   tearDown and the cleanups (LIFO) whatever happened.  In both cases, if force_failure is set afterwards,
+   _raise_force_fail_error goes through _run_user: its AssertionError is caught last. *)
 Definition run_test (p : prog) : trun :=
   let st0 := {| t_details := Some (p_pre p); t_forced := false |} in
   let '(st1, l0, e0) := run_body st0 (p_setup p) in
   match e0 with
   | Some x =>
       let '(st4, ls, es) := run_cleanups st1 (rev (p_cleanups p)) in
+      let forced := if t_forced st4 then [XFail] else [] in
       {| r_raised := l0 :: ls; r_after_ran := true;
-         r_outcome := final_outcome (x :: es);
+         r_outcome := final_outcome (x :: es ++ forced)%list;
          r_details := t_details st4 |}
   | None =>
       let '(st2, l1, e1) := run_body st1 (p_body p) in
